@@ -112,6 +112,7 @@ static void build(Inputs& in)
   in.X0 = MatrixRectangular(NV, NV);
   for (int iv = 0; iv < NV; iv++) in.X0.setValue(iv, iv, 1.);
 }
+// index of the concrete version of each input; Bayes / ColCok: -1 = option switched off
 struct Versions { int Z = 0, LHS = 0, RHS = 0, Var = 0, Bayes = 0, ColCok = 0; };
 
 static void applySetter(KrigingCalcul& k, const std::string& s, const std::string& mode, Inputs& in, const Versions& v)
@@ -121,8 +122,14 @@ static void applySetter(KrigingCalcul& k, const std::string& s, const std::strin
   else if (s == "setLHS") k.setLHS(&in.Sigma[v.LHS], hasX ? &in.X : nullptr);
   else if (s == "setRHS") k.setRHS(&in.Sigma0[v.RHS], hasX ? &in.X0 : nullptr);
   else if (s == "setVar") k.setVar(&in.Sigma00[v.Var]);
-  else if (s == "setBayes") k.setBayes(&in.PriorMean[v.Bayes], &in.PriorCov[v.Bayes]);
-  else if (s == "setColCok") k.setColCokUnique(&in.Zp[v.ColCok], &in.rankColCok[v.ColCok]);
+  else if (s == "setBayes" || s == "unsetBayes")
+  {
+    if (v.Bayes < 0) k.setBayes(nullptr, nullptr); else k.setBayes(&in.PriorMean[v.Bayes], &in.PriorCov[v.Bayes]);
+  }
+  else if (s == "setColCok" || s == "unsetColCok")
+  {
+    if (v.ColCok < 0) k.setColCokUnique(nullptr, nullptr); else k.setColCokUnique(&in.Zp[v.ColCok], &in.rankColCok[v.ColCok]);
+  }
 }
 static void setAll(KrigingCalcul& k, const std::string& mode, Inputs& in, const Versions& v)
 {
@@ -130,8 +137,9 @@ static void setAll(KrigingCalcul& k, const std::string& mode, Inputs& in, const 
   applySetter(k, "setLHS", mode, in, v);
   applySetter(k, "setRHS", mode, in, v);
   applySetter(k, "setVar", mode, in, v);
-  if (mode == "BAYES") applySetter(k, "setBayes", mode, in, v);
-  if (mode == "COLCOK") applySetter(k, "setColCok", mode, in, v);
+  // (a freshly built object never sees an option that is switched off)
+  if (mode == "BAYES" && v.Bayes >= 0) applySetter(k, "setBayes", mode, in, v);
+  if (mode == "COLCOK" && v.ColCok >= 0) applySetter(k, "setColCok", mode, in, v);
 }
 static VectorDouble get(KrigingCalcul& k, const std::string& g)
 {
@@ -180,8 +188,10 @@ static Value run(const Value& script)
       else if (op == "setLHS") v.LHS = 1 - v.LHS;
       else if (op == "setRHS") v.RHS = 1 - v.RHS;
       else if (op == "setVar") v.Var = 1 - v.Var;
-      else if (op == "setBayes") v.Bayes = 1 - v.Bayes;
-      else if (op == "setColCok") v.ColCok = 1 - v.ColCok;
+      else if (op == "setBayes") v.Bayes = (v.Bayes == 0) ? 1 : 0;
+      else if (op == "setColCok") v.ColCok = (v.ColCok == 0) ? 1 : 0;
+      else if (op == "unsetBayes") v.Bayes = -1;
+      else if (op == "unsetColCok") v.ColCok = -1;
       applySetter(k, op, mode, in, v);
     }
   }
